@@ -1927,11 +1927,11 @@ class BSP:
         edge_buf = BytesIO()
         surf_buf = BytesIO()
 
-        # The first edge is never actually used, since -0 = 0. Set it to be 0 0 0, adding that if
-        # not present.
-        try:
-            first_vert = self.vertexes[self.vertexes.index(Vec())]
-        except (IndexError, ValueError):
+        # The first edge is never actually used, since -0 = 0. VBSP leaves it zeroed, so it refers
+        # to the first vertex twice. Only add a vertex if there are none at all.
+        if self.vertexes:
+            first_vert = self.vertexes[0]
+        else:
             first_vert = Vec()
             self.vertexes.append(first_vert)
         edges: list[Edge] = [Edge(first_vert, first_vert)]
